@@ -343,7 +343,8 @@ def r6_request_verify(run):
     acc = [r.id for r in cfg.by_kind("return") if unparse(r.ast.value) == "self"]
     run.require(acc, "Request._verify: `return self` vanished")
     dest = "self.message.destination"
-    tests = [t for t in cfg.by_kind("test") if dest in unparse(t.ast)]
+    tests = [t for t in cfg.by_kind("test")
+             if dest in unparse(t.ast) or dest in unparse(cfg.ctest(t.id))]
     key = fi.qual + "::foreign-destination=>raise"
     if not tests:
         run.violated("R6", key, "the Destination is no longer examined", fi.loc())
